@@ -53,13 +53,34 @@ def tst_scenarios(ctx):
         out = core + ctx.rng.sample(base, 30) + ctx.rng.sample(variants, 12)
     else:
         out = core + ctx.rng.sample(base, 1500) + ctx.rng.sample(variants, 300)
+    # two arming clients (threads 1 and 3): overlapping start() calls; ties constrain only non-overlapping submissions
+    multi_core = [
+        dict(at=[0, 0, 0, 0], due=[1, 1, 1, 2], kind=["at"] * 4, owner=[1, 3, 1, 3], stop=0, stopAt=0),
+        dict(at=[0, 0, 0], due=[-1, 0, 0], kind=["at"] * 3, owner=[1, 3, 3], stop=2, stopAt=0),
+        dict(at=[0, 0, 0], due=[2, 1, 1], kind=["at", "after", "at"], owner=[3, 1, 3], stop=1, stopAt=1),
+        dict(at=[0, 0], due=[4, 2], kind=["at"] * 2, owner=[3, 1], stop=1, stopAt=1),
+    ]
+    multi = []
+    for sc in base[::7] + variants[::11]:
+        n = len(sc["due"])
+        if n < 2:
+            continue
+        for pat in ([1, 3, 1, 3], [3, 1, 1, 3], [1, 1, 3, 3]):
+            multi.append(dict(sc, owner=pat[:n]))
+    if MINI:
+        out = out + multi_core
+    elif ctx.quick:
+        out = out + multi_core + ctx.rng.sample(multi, 8)
+    else:
+        out = out + multi_core + ctx.rng.sample(multi, min(len(multi), 400))
     seen, res = set(), []
     for s in out:
+        s = dict(s)
+        s.setdefault("owner", [1] * len(s["due"]))
         k = json.dumps(s, sort_keys=True)
         if k in seen:
             continue
         seen.add(k)
-        s = dict(s)
         s["id"] = len(res) + 1
         res.append(s)
     return res
@@ -155,11 +176,14 @@ def run_tst(ctx):
                      workers=1, timeout=1500)
     if not ctx.quick:
         vlib.model_check(ctx, "timer", "TimedSingleThreadMC", env={"SCENARIOS": sp, "EDGES": "", "FREETICK": "0", "MUT": "none"}, timeout=2400)
+    multi = [x for x in scns if 3 in x["owner"]]
+    single = [x for x in scns if 3 not in x["owner"]]
+    ftsel = single[:8] + multi[:4] + single[8:] + multi[4:]       # free-tick runs: core scenarios of both kinds first
     sp1 = os.path.join(ctx.work, "tst_scenarios_ft1.json")
-    json.dump(scns[:(16 if ctx.quick else 500)], open(sp1, "w"))
+    json.dump(ftsel[:(16 if ctx.quick else 500)], open(sp1, "w"))
     vlib.model_check(ctx, "timer", "TimedSingleThreadMC", env={"SCENARIOS": sp1, "EDGES": "", "FREETICK": "1", "MUT": "none"}, timeout=2400)
     sp2 = os.path.join(ctx.work, "tst_scenarios_ft2.json")
-    json.dump(scns[:(6 if ctx.quick else 60)], open(sp2, "w"))
+    json.dump((single[:4] + multi[:2] if ctx.quick else ftsel[:60]), open(sp2, "w"))
     vlib.model_check(ctx, "timer", "TimedSingleThreadMC", env={"SCENARIOS": sp2, "EDGES": "", "FREETICK": "2", "MUT": "none"}, timeout=2400)
     rep.exhaustive = True
     # ---- behaviours from the exported graph
@@ -361,7 +385,16 @@ def run_tul(ctx):
             ex = vlib.split_executions(lp)
             if ex:
                 rep.sample(dict(kind="recorded-trace", sub=sub, scenario=main[0], events=[json.loads(x) for x in ex[0][1][:40]]))
-    rep.note("%s: %.1fs driver + validation" % (sub, time.time() - t0))
+    # delay(stream, scheduler, d) on the same loop: one timer per element (delay.hpp = finally(next, schedule_after))
+    ep = os.path.join(ctx.work, "tul_empty.json")
+    json.dump([], open(ep, "w"))
+    lp = os.path.join(ctx.work, "tul_log_delay.ndjson")
+    sums, deaths = vlib.run_batches(ctx, exe, ["--scenarios", ep, "--delay", 1], 6, lp, timeout=300)
+    rep.evaluations += sum(s.get("execs", 0) for s in sums)
+    for d in deaths:
+        _death_violation(rep, sub, "delay", d, None, dict(file=os.path.basename((d.get("where") or "").split(":")[0]), spec_predicts="none"))
+    _validate(ctx, rep, sub, "delay", lp)
+    rep.note("%s: %.1fs driver + validation (incl. %d delay() streams)" % (sub, time.time() - t0, sum(s.get("execs", 0) for s in sums)))
 
 
 # ----------------------------------------------------------------------------- C. monotonic_clock::time_point
@@ -451,8 +484,12 @@ def run_heap(ctx):
     sub = "IntrusiveHeap"
     edges = os.path.join(ctx.work, "heap_edges.ndjson")
     vlib.model_check(ctx, "timer", "IntrusiveHeapMC", env={"EDGES": edges, "MUT": "none"}, workers=1, timeout=1500)
-    adj, inits, nedges = vlib.read_edges(edges)
+    adj, _, nedges = vlib.read_edges(edges)
+    # the graph is cyclic (removing everything leads back to the empty heap): start from the empty states
+    inits = sorted({u for u, outs in adj.items() for (_, e) in outs if e.get("empty")})
     walks = _bounded_cover(adj, inits, 14, ctx.rng, extra_random=(50 if ctx.quick else 2000))
+    if not walks:
+        raise vlib.Broken("no histories generated from IntrusiveHeapMC's edge export")
     if ctx.quick and len(walks) > 1500:
         walks = ctx.rng.sample(walks, 1500)
     hp = os.path.join(ctx.work, "heap_histories.ndjson")
@@ -655,7 +692,7 @@ def run(ctx):
     rep.assume("sequentially consistent interleavings at mutex-block granularity (pthread_mutex_lock/unlock and condition-variable seams; "
                "plus the stop source's own schedule points in DFS/random mode)")
     rep.assume("virtual steady_clock: 1 tick = 1 ns, advanced only when no thread can move (real runs) / additionally at <= 2 arbitrary points (TLC)")
-    rep.assume("<= 4 operations per context, one remote request_stop per scenario; one arming thread")
+    rep.assume("<= 4 operations per context, one remote request_stop per scenario; one or two arming threads")
     if os.environ.get("TIMER_ONLY", "") in ("", "tst"):
         run_tst(ctx)
     if os.environ.get("TIMER_ONLY", "") in ("", "tul"):
